@@ -12,6 +12,7 @@ package kratos
 // the hand-made handler runs), as kratos' balancer does.
 
 import (
+	kerrors "github.com/go-kratos/kratos/v2/errors"
 	"context"
 	"errors"
 	"fmt"
@@ -367,7 +368,9 @@ func c19Matrix(f func(admitted, fallback bool, handler string)) {
 }
 
 var c19Bools = []bool{true, false}
-var c19Handlers = []string{"ok", "err", "panic"}
+// "errtyped": the handler fails with the framework's own error type carrying a client-error status (where the
+// framework has one; elsewhere it is a second plain failure)
+var c19Handlers = []string{"ok", "err", "panic", "errtyped"}
 
 func c19Name(ep string, admitted, fallback bool, handler string) string {
 	if c19PairTag != "" {
@@ -504,6 +507,8 @@ func c19KratosCase(t *testing.T, outlierMode, admitted, fallback bool, handler s
 			p.Node = &c19Node{addr: "127.0.0.1:19019", service: c.Resource}
 		}
 		switch handler {
+		case "errtyped":
+			return nil, kerrors.BadRequest("C19", "c19 typed handler error")
 		case "err":
 			return nil, c19ErrHandler
 		case "panic":
